@@ -22,7 +22,7 @@ RULE = ('Cases: (P, tau) with P substitution-free and I = P[tau] computed by O1 
         'tuples. distinct_nontrivial = distinct (pattern, instance) pairs where the pattern has a metavariable or a binder.')
 ASSUMPTIONS = ['completeness is only demanded for substitution-free patterns, as the property states']
 FLOORS = {'quick': {'match_single_success': 1000, 'match_single_failure': 1000, 'empty_substitution_success': 200, 'seeded_agree': 300, 'seeded_conflict': 300,
-                    'match_list': 2000, 'match_list_all_ground': 200, 'match_list_empty': 10, 'notation_roundtrips': 3000, 'assert_matches_calls': 3000,
+                    'match_list': 2000, 'match_list_all_ground': 200, 'match_list_empty': 10, 'match_list_identity_equation': 200, 'notation_roundtrips': 3000, 'assert_matches_calls': 3000,
                     'notation_arity0': 50, 'nary_deconstruct': 200}}
 FLOORS['thorough'] = dict(FLOORS['quick'])
 
@@ -135,6 +135,30 @@ def shard(ctx):
             ie = tb.inst(pe, tau, 'naive')
             eqs.append((rp.fold(pe, rng, 0.5), rp.fold(ie, rng, 0.5)))
             eqs_e.append((pe, ie))
+        if m and rng.random() < 0.15:
+            # an equation whose two sides are identical and schematic (tau is the identity there) next to one that binds the same
+            # metavariable to something else: no solution exists, and any answer must still rebuild every instance
+            pe0 = rp.rand_term(rng, rng.randint(1, 2), meta=True, notation=0.2, substs=False, constrained=0.0, mvs=(0, 1))
+            ids0 = sorted(tb.metavar_ids(pe0))
+            if ids0:
+                i0 = rng.choice(ids0)
+                other = rng.choice(pool)
+                extra = [(pe0, pe0), (tb.mv(i0), other)]
+                if rng.random() < 0.5:
+                    extra.reverse()
+                for a_, b_ in extra:
+                    eqs.append((rp.fold(a_, rng, 0.4), rp.fold(b_, rng, 0.4)))
+                    eqs_e.append((a_, b_))
+                ctx.count('match_list_identity_equation')
+                try:
+                    sigma = P.match(list(eqs))
+                except Exception as ex:
+                    ctx.violation('match_raises', f'match raised {type(ex).__name__}', W(equations=[(str(a), str(b)) for a, b in eqs], error=repr(ex)))
+                    continue
+                if sigma is not None:
+                    for (pat, ins), (pe, ie) in zip(eqs, eqs_e):
+                        check_sound(pat, pe, ins, ie, sigma, {}, 'match_list')
+                continue
         ground = all(not tb.metavar_ids(pe) for pe, _ in eqs_e)
         ctx.count('match_list')
         if m == 0:
